@@ -812,7 +812,8 @@ def run(ctx):
     # parameters beyond the small sizes: 5 and 12 keys, strings of 41 / 200 characters, 10-item list / tuple,
     # nesting 8 deep - in pairs that differ in one late key / one character in the middle or at the end
     short = [t for t in BIG_TOKENS if len(t) < 120]
-    run_tree_pool(ctx, 'trees-big-params', all_trees(1, BIG_TOKENS) + all_trees(ctx.pick(2, 3), short)[len(short):],
+    run_tree_pool(ctx, 'trees-big-params', all_trees(1, BIG_TOKENS) + all_trees(2, short)[len(short):] +
+                  (all_trees(3, short[:6])[42:] if ctx.tier == 'thorough' else []),
                   workers=ctx.pick(1, 6))
     ctx.set_exhaustive('trees-big-params', True)
     # large trees (17-60 nodes) in families: a random tree, 2 isomorphic presentations, up to 3 trees in which
